@@ -173,11 +173,30 @@ func parseQuery(query string) (q *QueryParams, err error) {
 			}
 			q.infoHashes = append(q.infoHashes, InfoHashFromString(value))
 		} else {
-			q.params[strings.ToLower(key)] = value
+			q.params[lowerASCII(key)] = value
 		}
 	}
 
 	return q, nil
+}
+
+// lowerASCII lower-cases the ASCII letters of a key and leaves every other
+// byte alone. Keys are matched case-insensitively, but Unicode case folding
+// (strings.ToLower) would also turn "peer_\u0130d" into "peer_id" and
+// "\u212aey" into "key".
+func lowerASCII(s string) string {
+	for i := 0; i < len(s); i++ {
+		if 'A' <= s[i] && s[i] <= 'Z' {
+			b := []byte(s)
+			for ; i < len(b); i++ {
+				if 'A' <= b[i] && b[i] <= 'Z' {
+					b[i] += 'a' - 'A'
+				}
+			}
+			return string(b)
+		}
+	}
+	return s
 }
 
 // String returns a string parsed from a query. Every key can be returned as a
